@@ -232,7 +232,11 @@ fn new_line_state(
             new_raw_line,
             config.minus_style.is_raw,
             diff_type.n_parents(),
-            &[*style::GIT_DEFAULT_MINUS_STYLE, config.git_minus_style],
+            &[
+                *style::GIT_DEFAULT_MINUS_STYLE,
+                config.git_minus_style,
+                *style::GIT_DEFAULT_WHITESPACE_ERROR_STYLE,
+            ],
             config,
         )
     };
@@ -250,7 +254,11 @@ fn new_line_state(
             new_raw_line,
             config.plus_style.is_raw,
             diff_type.n_parents(),
-            &[*style::GIT_DEFAULT_PLUS_STYLE, config.git_plus_style],
+            &[
+                *style::GIT_DEFAULT_PLUS_STYLE,
+                config.git_plus_style,
+                *style::GIT_DEFAULT_WHITESPACE_ERROR_STYLE,
+            ],
             config,
         )
     };
